@@ -936,7 +936,9 @@ class HierarchicalMachine(Machine):
         try:
             with self():
                 res = self._trigger_event_nested(event_data, trigger, None)
-            event_data.result = self._check_event_result(res, event_data.model, trigger)
+                # also evaluated from the root: the event may have been triggered by a callback of a running
+                # transition, i.e. while a nested scope is active
+                event_data.result = self._check_event_result(res, event_data.model, trigger)
         except BaseException as err:  # pylint: disable=broad-except; Exception will be handled elsewhere
             event_data.error = err
             if self.on_exception:
